@@ -1,7 +1,7 @@
 (* C18 -- Node identity is coherent: one key, one peer identity, one Ethereum address.
    Statements only; every proof is [exact <lemma>]. *)
 From Coq Require Import List NArith Bool.
-From MevVerif Require Import lib.Bytes model.Identity proofs.Identity_proofs.
+From MevVerif Require Import lib.Bytes model.Identity proofs.Identity_proofs model.Config proofs.Config_proofs.
 Import ListNotations.
 Open Scope N_scope.
 
@@ -224,3 +224,10 @@ Theorem C18_identity_collision_is_key_collision :
                     eth_addr keccak P = A /\ eth_addr keccak P' = A.
 Proof. exact Compose_p2p.identity_collision_is_key_collision. Qed.
 Print Assumptions C18_identity_collision_is_key_collision.
+
+(* "every private key the node can be started with": cmd/main.go obtains the key signer from exactly two
+   constructors (statements of newKeySigner regenerated from the source on every run): the keystore signer when
+   keystore-path is set, the private-key-file signer otherwise.  The C18 driver starts identities through both. *)
+Theorem C18_key_sources_are_the_two_signers : MevVerif.model.Config.key_signer_sources_ok = true.
+Proof. exact MevVerif.proofs.Config_proofs.key_signer_sources. Qed.
+Print Assumptions C18_key_sources_are_the_two_signers.
